@@ -41,6 +41,11 @@ func init() {
 					shards = append(shards, fmt.Sprintf("%s:%d:janitor", t.name, i))
 				}
 			}
+			if !t.c01only {
+				for i := range ms {
+					shards = append(shards, fmt.Sprintf("%s:%d:then", t.name, i))
+				}
+			}
 		}
 		scratch, err := os.MkdirTemp("", "verif-c01-")
 		if err != nil {
@@ -153,7 +158,11 @@ func cleanFunc(f string) string {
 func c01worker(arg string) {
 	out := newWorkerOut()
 	parts := strings.Split(arg, ":")
-	janitor := len(parts) == 3
+	janitor := len(parts) == 3 && parts[2] == "janitor"
+	// "then": triples. One thread makes call a, the other makes b and then c (every ordered pair of
+	// methods): a is in flight while the instance goes through two changes -- what a pair cannot show
+	// (a reader scanning a snapshot while the storage is emptied AND refilled)
+	then := len(parts) == 3 && parts[2] == "then"
 	var t *conType
 	for _, ct := range conTypes() {
 		if ct.name == parts[0] {
@@ -196,11 +205,24 @@ func c01worker(arg string) {
 	}
 	a := ms[ai]
 	states := map[string]struct{}{}
-	for bi := ai; bi < len(ms); bi++ {
-		b := ms[bi]
+	partners := ms[ai:]
+	if then {
+		partners = nil
+		for _, b := range ms {
+			for _, c := range ms {
+				ob, oc := b.ops[0], c.ops[0]
+				partners = append(partners, methodVariants{method: b.method + ";" + c.method, ops: []opSpec{{b.method + ";" + c.method, ob.label + " ; " + oc.label, func(i any) string { return ob.run(i) + ";" + oc.run(i) }}}})
+			}
+		}
+	}
+	for bi0, b := range partners {
+		bi := ai + bi0
 		pairKey := fmt.Sprintf("%s.%s‖%s", t.name, a.method, b.method)
 		reported := map[string]bool{}
 		for ii, init := range t.inits {
+			if then && (ii == 0 || ii > 2) {
+				continue // triples: the two small non-empty start states
+			}
 			if janitor && (ii == 1 || ii > 2) {
 				continue // the janitor family builds its own contents: empty and {x,y} with a 3 ms lifetime
 			}
@@ -223,7 +245,7 @@ func c01worker(arg string) {
 			}
 			for vi, oa := range a.ops {
 				for vj, ob := range b.ops {
-					if janitor && (vi > 0 || vj > 0) {
+					if (janitor || then) && (vi > 0 || vj > 0) {
 						continue
 					}
 					if r := replayReq; r != nil && r.Scenario != fmt.Sprintf("%d|%s|%s", ii, oa.label, ob.label) {
